@@ -490,7 +490,7 @@ func (st *State) step(f *Frame, ins ssa.Instruction) []*State {
 		if len(st.eng.cs.TypeInvs) > 0 && st.eng.typeInvFor(x.X.Type()) != nil && !st.eng.typeInvFor(x.X.Type()).isCtor(f.fn) {
 			st.assume(st.typeInvTerm(Value{T: x.X.Type(), S: SRef, Term: base.Term}, st.heap))
 		}
-		f.regs[x] = Value{T: x.Type(), S: SRef, Term: sub(base.Term, x.Field)}
+		f.regs[x] = Value{T: x.Type(), S: SRef, Term: st.eng.fsub(base.Term, x.X.Type().Underlying().(*types.Pointer).Elem(), x.Field)}
 	case *ssa.Field:
 		v := st.eval(x.X)
 		ft := x.Type()
